@@ -55,8 +55,8 @@ func (p *Program) inlineNewHelpers() []string {
 	var report []string
 	var fns []*ssa.Function
 	for fn := range p.Fns {
-		if fn.Blocks != nil && inRepo(fn) {
-			fns = append(fns, fn)
+		if fn.Blocks != nil && inRepo(fn) && fn.Synthetic == "" {
+			fns = append(fns, fn) // (method-value and interface wrappers keep calling the function they wrap)
 		}
 	}
 	sort.Slice(fns, func(i, j int) bool { return fname(fns[i]) < fname(fns[j]) })
